@@ -8,6 +8,7 @@ that must reproduce the baseline.  Malformed custom-flatten returns are enumerat
 """
 from __future__ import annotations
 
+import collections
 import gc
 import sys
 from array import array
@@ -56,6 +57,36 @@ class Injected(Exception):
 
 class InjectedBase(BaseException):
     pass
+
+
+# user exceptions of classes the engine's own error paths also use: a catch clause or an exception translator that is
+# too broad would replace / absorb exactly these
+class InjectedValueError(ValueError):
+    pass
+
+
+class InjectedRuntimeError(RuntimeError):
+    pass
+
+
+class InjectedKeyError(KeyError):
+    pass
+
+
+class InjectedIndexError(IndexError):
+    pass
+
+
+class InjectedRecursionError(RecursionError):
+    pass
+
+
+class InjectedTypeError(TypeError):
+    pass
+
+
+EXC_KINDS = (Injected, InjectedBase, None, InjectedValueError, InjectedRuntimeError, InjectedKeyError, InjectedIndexError,
+             InjectedRecursionError, InjectedTypeError, Injected)
 
 
 def tier_config(tier):
@@ -111,12 +142,12 @@ def run_job(job, io):
     violations = []
     keys = set()
     probes = {}
-    faults_fired = {'raise': 0, 'raise-base': 0, 'raise-typeerror-lt': 0, 'malformed': 0}
+    faults_fired = collections.Counter({'raise': 0, 'raise-base': 0, 'raise-typeerror-lt': 0, 'malformed': 0})
     steps = 0
 
     scn = Scn(tape)
     opname = tape.choice(OP_NAMES, 'op')
-    base_kind = tape.draw(3, 'exc-kind')
+    base_kind = tape.draw(len(EXC_KINDS), 'exc-kind')
     fn = OPS[opname]
     ops_desc = {'op': opname, 'ns': scn.ns, 'none_is_leaf': scn.none_is_leaf, 'tree': gen.describe(scn.tree),
                 'registered': [(c.__name__, f.style) for c, _, f in scn.reg.live], 'stop_nodes': len(scn.stop_ids)}
@@ -165,15 +196,22 @@ def run_job(job, io):
     buf_b, buf_a, buf_c = (array('q', [0] * len(tracked)) for _ in range(3))
     for k in ks:
         label = labels[k - 1]
-        if label == 'key.__lt__' and base_kind == 2:
-            inj = TypeError('injected incomparable')
+        exc_cls = EXC_KINDS[base_kind]
+        if (label == 'key.__lt__' and (exc_cls is None or exc_cls is InjectedTypeError)) or \
+                (label in ('key.__eq__', 'ukey.__eq__') and exc_cls is InjectedTypeError):
+            # a TypeError from a key comparison (__lt__, or the __eq__ that tuple comparison calls during the fallback sort)
+            # is the documented "incomparable keys" signal
+            inj = TypeError('injected incomparable') if exc_cls is None else InjectedTypeError(k)
             kind = 'raise-typeerror-lt'
-        elif base_kind == 1:
+        elif exc_cls is InjectedBase:
             inj = InjectedBase(k)
             kind = 'raise-base'
-        else:
+        elif exc_cls is None or exc_cls is Injected:
             inj = Injected(k)
             kind = 'raise'
+        else:
+            inj = exc_cls(k)
+            kind = 'raise-' + exc_cls.__name__[8:].lower()
         site = '%s@%s' % (opname, label)
         io.progress({'site': site, 'k': k, 'tape': tape.values})
         cnt = [0]
@@ -359,7 +397,7 @@ def run_job(job, io):
     import hashlib
     dig = hashlib.sha256(repr((opname, labels, describe_outcome(base), [v['cls'] + v['site'] for v in violations], sorted(keys))).encode()).hexdigest()
     out = {'digest': dig, 'violations': violations, 'keys': sorted(keys), 'steps': steps + 2 * K, 'probes': probes,
-           'faults_cfg': {k: 1 for k, v in faults_fired.items() if v}, 'faults_fired': faults_fired,
+           'faults_cfg': {k: 1 for k, v in faults_fired.items() if v}, 'faults_fired': dict(faults_fired),
            'sample': sample if job.get('i', 0) % 50 == 0 else None, 'extra': {'fault_points': len(ks), 'pairs_with_callbacks': int(K > 0), 'fault_pairs': pairs_done}}
     if violations or job.get('_min') or job.get('_stream_tape'):
         out['tape'] = tape.values
